@@ -10,21 +10,39 @@ import (
 	"sync"
 	"sync/atomic"
 	"testing"
+	"time"
 
 	"verif/harness/internal/conc"
 	"verif/harness/internal/evt"
 	"verif/harness/internal/vk"
+	"verif/harness/internal/watchdog"
 )
 
 func TestC07(t *testing.T) {
 	run := vk.New("C07", "sequential")
 	defer run.Finish()
 	all := evt.Drivers()
-	n := run.Scale(250, 6000)
+	n := run.Scale(150, 6000)
 	procs := []int{1, 2, 4, 16}
 	defer runtime.GOMAXPROCS(runtime.GOMAXPROCS(0))
+	var cur string
+	dog := watchdog.Start(20*time.Second, func(v watchdog.Verdict) {
+		if v.Deadlock {
+			run.Violation("seq:hang", "publishers / Wait stopped making progress with goroutines parked below ebu frames: "+cur, map[string]any{"case": cur, "dump": v.Dump[:min(len(v.Dump), 20000)]})
+		} else {
+			run.Inconclusive("watchdog fired without a confirmed deadlock")
+		}
+		run.Finish()
+		watchdog.Exit()
+	})
+	defer dog.Stop()
+	dead, cancelDead := context.WithCancel(context.Background())
+	cancelDead()
 	for i := 0; i < n; i++ {
 		rng := run.Rand(uint64(i))
+		withCancelled := i%3 == 0
+		cur = fmt.Sprintf("round %d", i)
+		dog.Tick()
 		runtime.GOMAXPROCS(procs[i%len(procs)])
 		drivers := conc.SameShardTypes(all, 1, rng.Uint64())
 		w := conc.NewWorld(drivers, rng.Uint64(), true)
@@ -75,6 +93,12 @@ func TestC07(t *testing.T) {
 				<-start
 				for k := 0; k < E; k++ {
 					id := w.NextEID()
+					if withCancelled && (k+g)%5 == 1 {
+						// a publish whose context is already cancelled: no delivery is owed, and it must
+						// not disturb the deliveries of the live publishes around it
+						w.PublishID(g, 0, dead, id)
+						continue
+					}
 					published[g] = append(published[g], id)
 					if k%3 == 0 {
 						w.PublishID(g, 0, context.Background(), id)
